@@ -442,12 +442,16 @@ pub fn check_flag_words() -> (Vec<(Fail, Value)>, u64) {
             }
         }
     }
-    // AVSET: documented 2 (bit 1) = enabled, 4 (bit 2) = disabled; evaluated where exactly one of the two is set
-    evals += 32_768;
+    // AVSET: documented 2 (bit 1) = enabled, 4 (bit 2) = disabled.  The accessor carries a debug_assert! that exactly
+    // one of the two is set: with debug assertions it is evaluated on that documented domain; in a build without
+    // them (cargo profile `nodebug`, run by the driver as well) it returns for every word and must depend on
+    // exactly bit 1
+    let whole_domain = !cfg!(debug_assertions);
+    evals += if whole_domain { 65_536 } else { 32_768 };
     for raw in 0..=0xFFFFu32 {
         let raw = raw as u16;
         let (en, dis) = (raw & 0b010 != 0, raw & 0b100 != 0);
-        if en == dis {
+        if en == dis && !whole_domain {
             continue;
         }
         match message_with(14, raw, !raw).and_then(|m| no_panic("avset_enabled", || m.rda_scan_and_data_flags().avset_enabled())) {
